@@ -60,7 +60,7 @@ CHECKS = {
    design="3/C03, App.C"),
  "C05": dict(engine="E2 e2e", category="model_checking", technique="explicit-state exploration; backtrace compared with the reference tracer's shadow call stack at every reached state",
    text="At every state reached by histories over breakpoints/continue/step commands (depth 4 quick / 6) the backtrace's frame ips must equal pc + the return addresses of the calls really in progress (call/ret tracked by the reference tracer), for all frames up to main; frame_info CFA/return address of frame 0 must match the real stack.",
-   note="Frame selection (variable reads per activation) and multi-thread backtraces are not covered yet. Frames below main (_start, no CFI) are not compared.",
+   note="Second part: through the real DAP adapter a 257-frame stack (recursion 255) is listed and the probed frame ids (quick 11, thorough all 257) must each select their own activation (scopes -> variables show that activation's argument), ids pairwise distinct. Multi-thread backtraces and register reads per frame are not covered. Frames below main (_start, no CFI) must not exist.",
    design="3/C05"),
  "C07": dict(engine="E4 pure", category="exploration", technique="bounded-exhaustive enumeration of expression ASTs through the real parser",
    text="Every Dqe AST up to operator depth 3 (quick) / 4 (thorough) over 3 bases x 19 operators, and every index literal of nesting <= 2, is printed by an independent printer in two renderings and must parse back to the same AST with the real chumsky parser. This decides the 'parsing is a function of the text / documented precedence' half of the property exhaustively within the bound.",
